@@ -186,13 +186,19 @@ theorem not_mem_safelyQuoteBy_of_not_mem (f : Char → Bool) {c : Char} (hc : Se
     · rw [e] at hc; have := hc.2; rw [hw.1] at this; cases this
     · rw [e] at hc; have := hc.2; rw [hw.2] at this; cases this
   | stray =>
-    simp only [quoteTokBy, List.mem_singleton] at ht'
-    subst ht'
-    simp only [renderTok, List.mem_cons, List.not_mem_nil, or_false] at hch
-    rcases hch with e | e | e
-    · exact hc.1 e
-    · rw [e] at hc; exact absurd hc.2 (by decide)
-    · rw [e] at hc; exact absurd hc.2 (by decide)
+    simp only [quoteTokBy] at ht'
+    split at ht'
+    · simp only [List.mem_singleton] at ht'
+      subst ht'
+      simp only [renderTok, List.mem_singleton] at hch
+      exact hc.1 hch
+    · simp only [List.mem_singleton] at ht'
+      subst ht'
+      simp only [renderTok, List.mem_cons, List.not_mem_nil, or_false] at hch
+      rcases hch with e | e | e
+      · exact hc.1 e
+      · rw [e] at hc; exact absurd hc.2 (by decide)
+      · rw [e] at hc; exact absurd hc.2 (by decide)
 
 theorem splitOn_safelyQuoteBy {f : Char → Bool} {c : Char} (hc : Sep c) (hq : f c = true) (s : Str) :
     splitOn (safelyQuoteBy f s) c = (splitOn s c).map (safelyQuoteBy f) := by
